@@ -23,7 +23,7 @@ RULE = ('a case = an initial Loop tree (depth <= 3, <= 3 children per node, coun
         'operations (quick: <= 12, thorough: <= 30) whose target nodes are chosen by selectors resolved on the real tree; '
         'arguments include boundary values (negative / out-of-range indices, empty / extended / negative-step slices, '
         'count 0, unroll of the root, merge with measurements).  Plus exhaustive histories over a fixed 18-operation '
-        'alphabet on seed trees (quick: length 2 on 2 trees, thorough: length <= 3 on 3 trees); roll-centred histories; == against a structural copy that is left unchanged or changed in exactly one respect.  After EVERY operation '
+        'alphabet on seed trees (quick: length 2 on 2 trees, thorough: length <= 2 on 3 trees, length 3 on one); roll-centred histories; == against a structural copy that is left unchanged or changed in exactly one respect.  After EVERY operation '
         'every reachable node is observed (reported duration, parent_index, parent identity, locate(get_location())).  '
         'Round 2: forest histories - the harness keeps references to nodes (hold), removes them from the program in '
         'every way the API offers (slice / int assignment, unroll, merge, cleanup, reversed slice) and then edits the '
@@ -262,13 +262,15 @@ def gen_cases(rng, tier, ctx):
     quick = tier == 'quick'
     # exhaustive small histories
     seeds = SEEDS[:2] if quick else SEEDS
-    for seed in seeds:
-        for n in ([2] if quick else [1, 2, 3]):
+    for k, seed in enumerate(seeds):
+        # round 5: the thorough tier was trimmed (36k cases, several GB of observations: killed under memory pressure):
+        # length 3 on the first seed tree only, random streams halved
+        for n in ([2] if quick else [1, 2, 3] if k == 0 else [1, 2]):
             for combo in itertools.product(range(len(ALPHABET)), repeat=n):
                 cases.append({'kind': 'hist', 'src': 'exh%d' % n, 'init': seed,
                               'ops': [ALPHABET[i] for i in combo] + [{'op': 'qdur', 'sel': [0]}]})
     # random histories
-    n_rand = 330 if quick else 6000
+    n_rand = 330 if quick else 3000
     maxlen = 12 if quick else 30
     for i in range(n_rand):
         allow_roll = rng.random() < 0.25
@@ -276,7 +278,7 @@ def gen_cases(rng, tier, ctx):
         n = rng.randint(2, maxlen)
         cases.append({'kind': 'hist', 'src': 'rand', 'init': init, 'ops': [rnd_op(rng, allow_roll) for _ in range(n)]})
     # roll-centred histories: constant leaves that really get rolled, queries before, edits of the rolled leaves after
-    for i in range(60 if quick else 1200):
+    for i in range(60 if quick else 800):
         def cl():
             return L(['c', rng.choice(['4', '6', '8', '9', '12', '16']), rng.randint(0, 2)], rng.choice([1, 2, 3]))
         init = N([cl(), N([cl(), cl()], rng.choice([1, 2])), cl()][:rng.randint(1, 3)], rng.choice([1, 2]))
@@ -406,7 +408,7 @@ def gen_forest(rng, quick):
                         {'f': 'at', 'k': 0, 'op': {'op': 'qdur', 'sel': []}}]})
     if quick:
         cases = cases[::2]
-    for _ in range(120 if quick else 2500):
+    for _ in range(120 if quick else 1500):
         init = rnd_spec(rng, rng.choice([2, 2, 3]), leaf_p=0.1)
         ops = []
         for _ in range(rng.randint(4, 10 if quick else 22)):
@@ -536,7 +538,7 @@ def gen_forest3(rng, quick):
         off = rng.randint(0, 2)
         cases = [c for i, c in enumerate(cases) if c['src'] in keep_all or i % 3 == off]
     # random stream over the whole forest alphabet
-    for _ in range(110 if quick else 3000):
+    for _ in range(110 if quick else 1500):
         init = rnd_spec(rng, rng.choice([2, 2, 3]), leaf_p=0.1)
         ops = []
         for _ in range(rng.randint(4, 10 if quick else 22)):
@@ -840,11 +842,17 @@ def _aliased(roots):
     return False
 
 
+class TooLarge(Exception):
+    pass
+
+
 def observe(root, top=None):
     top = root if top is None else top
     live = _live(root)
     if len(live) > 400:
-        raise RuntimeError('tree too large')
+        # one operation (flatten_and_balance / unroll with large counts) blew the tree up: the history is cut BEFORE this step
+        # (round 5: used to surface as a crash, i.e. a false VIOLATION, in the thorough tier's random forest stream)
+        raise TooLarge('tree too large')
     paths = {}
     for n, p in live:
         paths.setdefault(id(n), p)      # a node listed twice: the first position in preorder (as the model's lookup)
@@ -1136,7 +1144,11 @@ def run_forest(case):
                     caller_aliased = True
                 if caller_aliased:
                     flags['aliased'] = True
-                steps.append({'f': rf, 'out': out, 'eq': eq, 'tree': observe(root), 'held': held_obs(), 'flags': flags})
+                try:
+                    st = {'f': rf, 'out': out, 'eq': eq, 'tree': observe(root), 'held': held_obs(), 'flags': flags}
+                except TooLarge:
+                    break
+                steps.append(st)
             return {'init': init, 'steps': steps, 'forest': True}
     except vlib.Timeout:
         return {'hang': True}
@@ -1170,7 +1182,10 @@ def run_impl(case):
                     break
                 keep.extend(n for n, _ in live)
                 rop, out, eq = apply_op(env, root, op)
-                steps.append({'op': rop, 'out': out, 'eq': eq, 'tree': observe(root)})
+                try:
+                    steps.append({'op': rop, 'out': out, 'eq': eq, 'tree': observe(root)})
+                except TooLarge:
+                    break
             return {'init': init, 'steps': steps}
     except vlib.Timeout:
         return {'hang': True}
